@@ -64,3 +64,50 @@ def random_state(rng, n, sparse=False):
     nrm = math.sqrt(sum(abs(z) ** 2 for z in v))
     v = [z / nrm for z in v]
     return v + [0j] * (max(N, 8) - N)
+
+
+def high_probe(rng, kind, n=None, lo=None, nbits=None, nctrl=None, threads=None):
+    """one sparse probe on a register of 14-17 qubits: a gate (under 0-3 controls) whose bits all sit on the highest
+    qubits -- beyond any block of cells a kernel, serial or parallel, might work in -- on a basis state that has all,
+    some or none of the controls set; read at the images of the state under every part of the mask"""
+    import os
+    cores = os.cpu_count() or 4
+    n = n or rng.choice([14, 15, 16, 16, 17])
+    lo = min(lo if lo is not None else rng.choice([10, 12, 12, 14]), n - 3)
+    hi = list(range(lo, n))
+    if kind in ("qft", "qft_swapped"):
+        need = nbits or rng.choice([2, 3])
+    elif kind in PARAM2 + NOPARAM2:
+        need = 2
+    elif kind in PARAM1 + ["u2", "u3"]:
+        need = 1
+    else:
+        need = nbits or rng.choice([1, 2, 2, 3])
+    bits = rng.sample(hi, min(need, len(hi)))
+    m = sum(1 << b for b in bits)
+    e = gate(kind, m, rng)
+    rest = [b for b in hi if b not in bits]
+    if nctrl is None:
+        nctrl = rng.choice([0, 0, 1, 2, 2, 3])
+    cb = rng.sample(rest, min(len(rest), nctrl))
+    if cb:
+        e = ("c", sum(1 << b for b in cb), e)
+    j = rng.getrandbits(n)
+    r = rng.random()
+    if cb and r < 0.45:
+        for b in cb:
+            j |= 1 << b
+    elif cb and r < 0.8:
+        j |= 1 << cb[0]
+        if len(cb) > 1:
+            j &= ~(1 << cb[1])
+    parts = [0]
+    for b in bits:
+        parts += [p | (1 << b) for p in parts]
+    idxs = sorted({j ^ p for p in parts} | {j & ((1 << 14) - 1), j & ((1 << 12) - 1), rng.randrange(1 << n)})
+    if threads is None:
+        threads = rng.choice([1, 1] + [k for k in (2, 3, 4, 5, 7) if k <= cores])
+    c = {"kind": "probe", "n": n, "j": j, "idxs": idxs, "e": e}
+    if threads > 1 and threads <= cores:
+        c["threads"] = threads
+    return c
